@@ -619,8 +619,18 @@ def rule_stringify(model):
     return r
 
 
-RULES = [rule_threading, rule_compile_receiver, rule_concat, rule_decoders,
-         rule_exception_str, rule_stringify]
+def _inl(rule):
+    """Run a rule on the view in which helpers that are new w.r.t. the
+    reference tree are inlined at their call sites (normalise.N2)."""
+    def run(model):
+        return rule(model.inlined_view())
+    run.__name__ = rule.__name__
+    return run
+
+
+INLINED_VIEW = False
+RULES_PLAIN = [rule_threading, rule_compile_receiver, rule_concat, rule_decoders, rule_exception_str, rule_stringify]
+RULES = [_inl(r_) for r_ in RULES_PLAIN] if INLINED_VIEW else RULES_PLAIN
 EXPLANATION = (
     'Call-site query: every call whose resolved callee has an `encoding` '
     'parameter must bind it (self.encoding / the received encoding), '
